@@ -11,6 +11,7 @@ import (
 	"sort"
 	"strings"
 	"sync"
+	"syscall"
 
 	"verif/engine/gosym"
 	"verif/engine/hgen"
@@ -47,22 +48,35 @@ func setupGoCache() {
 	if dir == "" {
 		dir = filepath.Join(verifDir, ".cache", "go-build")
 	}
-	const limit = int64(3) << 30
-	var size int64
-	filepath.Walk(dir, func(_ string, fi os.FileInfo, err error) error {
-		if err == nil && !fi.IsDir() {
-			size += fi.Size()
-		}
-		return nil
-	})
-	if size > limit {
-		os.RemoveAll(dir)
-	}
 	if err := os.MkdirAll(dir, 0o755); err != nil {
 		return
 	}
+	// Several verif processes may share the cache. Each holds a shared lock for its lifetime; the cache is only
+	// emptied by a process that can get the exclusive lock (nobody else is building from it).
+	lf, err := os.OpenFile(filepath.Join(filepath.Dir(dir), "go-build.lock"), os.O_CREATE|os.O_RDWR, 0o644)
+	if err == nil {
+		if syscall.Flock(int(lf.Fd()), syscall.LOCK_EX|syscall.LOCK_NB) == nil {
+			const limit = int64(3) << 30
+			var size int64
+			filepath.Walk(dir, func(_ string, fi os.FileInfo, err error) error {
+				if err == nil && !fi.IsDir() {
+					size += fi.Size()
+				}
+				return nil
+			})
+			if size > limit {
+				os.RemoveAll(dir)
+				os.MkdirAll(dir, 0o755)
+			}
+			syscall.Flock(int(lf.Fd()), syscall.LOCK_UN)
+		}
+		syscall.Flock(int(lf.Fd()), syscall.LOCK_SH)
+		cacheLock = lf // kept open until the process exits
+	}
 	os.Setenv("GOCACHE", dir)
 }
+
+var cacheLock *os.File
 
 func writeScratchModule(dir string) error {
 	gomod := "module scratchmod\n\ngo 1.23\n\nrequire github.com/csgura/fp v0.0.0\n\nreplace github.com/csgura/fp => " + repoDir + "\n"
